@@ -30,18 +30,24 @@ for line in sys.stdin:
         k = m.make_kernel([np.array([1.0, 2.0])])
         r = call_kernel(k, dict(scale=1.0, background=0.0))
         k.release()
-        print(json.dumps([float(x) for x in r])); sys.stdout.flush()
+        import os
+        from sasmodels import generate
+        tag = generate.tag_source(generate.make_source(m.info)["dll"])
+        print(json.dumps([float(x) for x in r] + [m.info.id, tag, os.path.basename(m.dllpath)])); sys.stdout.flush()
     elif cmd["op"] == "quit":
         break
 '''
 
 
-def model_text(mid):
+NAMES = ["verif_c17", "verif_c17_" + "long_plugin_name_" * 4 + "x"]      # 9 and 79 characters
+
+
+def model_text(mid, name="verif_c17"):
     extra = '    ["extra", "", 0.0, [-10, 10], "", ""],\n' if mid % 2 else ""
-    return ('name = "verif_c17"\ntitle = "C17 probe"\ndescription = "text %d"\ncategory = "shape:sphere"\n'
+    return ('name = "%s"\ntitle = "C17 probe"\ndescription = "text %d"\ncategory = "shape:sphere"\n'
             'parameters = [\n    ["s", "", 1.0, [-10, 10], "", ""],\n%s]\n'
-            'source = ["verif_c17_helper.c"]\n'
-            'Iq = "return %d.0*q + helper_value();"\n' % (mid, extra, mid))
+            'source = ["%s_helper.c"]\n'
+            'Iq = "return %d.0*q + helper_value();"\n' % (name, mid, extra, name, mid))
 
 
 def c_text(cid):
@@ -49,12 +55,13 @@ def c_text(cid):
 
 
 class World:
-    def __init__(self, root, idx):
+    def __init__(self, root, idx, name="verif_c17"):
+        self.name = name
         self.dir = os.path.join(root, "h%d" % idx)
         self.cache = os.path.join(self.dir, "cache")
         os.makedirs(self.cache)
-        self.mpath = os.path.join(self.dir, "verif_c17.py")
-        self.cpath = os.path.join(self.dir, "verif_c17_helper.c")
+        self.mpath = os.path.join(self.dir, name + ".py")
+        self.cpath = os.path.join(self.dir, name + "_helper.c")
         self.wpath = os.path.join(self.dir, "worker.py")
         open(self.wpath, "w").write(WORKER)
         self.clock = 0
@@ -116,15 +123,16 @@ def gen_history(rng, n):
 
 
 def run_history(root, idx, init, ops):
-    w = World(root, idx)
-    w.write(w.mpath, model_text(init[0]))
+    name = NAMES[idx % len(NAMES)] if idx else NAMES[0]     # every other history uses a long plug-in name
+    w = World(root, idx, name)
+    w.write(w.mpath, model_text(init[0], name))
     w.write(w.cpath, c_text(init[1]))
-    obs, errors, sources = [], [], set()
+    obs, errors, sources, names = [], [], set(), []
     cur_m, cur_c = init
     try:
         for op in ops:
             if op[0] == "EditM":
-                w.clock += 1; cur_m = op[1]; w.write(w.mpath, model_text(op[1]))
+                w.clock += 1; cur_m = op[1]; w.write(w.mpath, model_text(op[1], name))
             elif op[0] == "EditC":
                 w.clock += 1; cur_c = op[1]; w.write(w.cpath, c_text(op[1]))
             elif op[0] == "Fresh":
@@ -133,12 +141,13 @@ def run_history(root, idx, init, ops):
                 vals, err = w.load("double" if op[1] == 64 else "single")
                 if vals is None:
                     errors.append(err); obs.append((-1, -1)); continue
+                names.append((str(op[1]), vals[2], vals[3], vals[4]))
                 a = vals[1] - vals[0]
                 b = 2 * vals[0] - vals[1]
                 obs.append((int(round(a)), int(round(b))))
                 sources.add((cur_m, cur_c))
         libs = sorted(f for f in os.listdir(w.cache) if f.endswith(".so"))
-        return dict(init=list(init), ops=[list(o) for o in ops], observed=obs, libs=libs, errors=errors)
+        return dict(init=list(init), ops=[list(o) for o in ops], observed=obs, libs=libs, errors=errors, plugin_name=name, names=names)
     finally:
         w.stop()
 
@@ -225,6 +234,23 @@ def main(run):
             for i in vals[0]:
                 r = res[i]
                 run.add(Finding("C17:corr", "history %s: observations %s / %d libraries differ from the cache model" % (r["ops"], r["observed"], len(r["libs"])), dict(r)))
+    # library file names: "sas<bits>_<id>_<tag>.so" as C17.Names.lib_basename builds it
+    allnames = sorted({tuple(x) for r in res for x in r.get("names", [])})
+    stats["library_names"] = len(allnames)
+    if allnames and not run.proof_broken():
+        import ctypes
+        arch = "" if ctypes.sizeof(ctypes.c_void_p) > 4 else "x86"
+        body = "; ".join('("%s", "%s", "%s", "%s", "%s")' % (b, i, t, arch + ".so", o) for b, i, t, o in allnames)
+        text = ("From Coq Require Import List String.\nImport ListNotations.\nOpen Scope string_scope.\nFrom SM Require Import C17.Names C17.Exec.\n"
+                "Eval vm_compute in (check_names [%s]).\n" % body)
+        rc, vals, err = common.run_coq_shards([text], run.scratch.sub("coqn"), prefix="c17n")[0]
+        if rc != 0 or not vals:
+            run.add(Finding("corr:C17:names", "name correspondence failed to evaluate: %s" % err[-300:], {"correspondence": "C17.Exec.check_names", "stderr": err[-1500:]}, no_input=True))
+        else:
+            for i in vals[0]:
+                b, mid, t, o = allnames[i]
+                run.add(Finding("C17:libname", "the %s-bit library of model %r with source tag %s is cached as %r, not under the name that carries its key (sas%s_%s_%s.so): different sources can share a library" % (
+                    b, mid, t, o, b, mid, t), dict(bits=b, model_id=mid, tag=t, observed=o)))
     run.coverage.update(evaluations=stats["loads"], distinct_nontrivial=len(distinct), traces_validated_against_impl=traces,
                         input_distribution=stats)
     run.assumptions += ["file modification times advance by one second per edit (set with os.utime), as the property assumes",
